@@ -1062,11 +1062,18 @@ class PiecewiseLinearCoalescentGrid(Distribution):
         # Integrate 1/N(t) over each interval
         intervals = grid_heights_sorted[..., 2:] - grid_heights_sorted[..., 1:-1]
         diff_thetas = pop_sizes[..., 2:] - pop_sizes[..., 1:-1]
-        diff_log_thetas = log_pop_sizes[..., 2:] - log_pop_sizes[..., 1:-1]
 
-        integral = intervals / pop_sizes[..., 1:-1]
-        idx = (diff_thetas != 0.0).nonzero(as_tuple=True)
-        integral[idx] = intervals[idx] * diff_log_thetas[idx] / diff_thetas[idx]
+        # int_a^b dt/N(t) = (b-a)/N(a) * log(1+x)/x with x = (N(b)-N(a))/N(a).
+        # (log N(b) - log N(a))/(N(b) - N(a)) loses every digit when N(b) is close
+        # to N(a) (e.g. a sampling time on the last grid point); log1p(x)/x does not.
+        pop_sizes_start = pop_sizes[..., 1:-1]
+        x = diff_thetas / pop_sizes_start
+        small = x.abs() < 1.0e-6
+        x_safe = torch.where(small, torch.ones_like(x), x)
+        ratio = torch.where(
+            small, 1.0 - x / 2.0 + x * x / 3.0, torch.log1p(x_safe) / x_safe
+        )
+        integral = intervals / pop_sizes_start * ratio
 
         return -torch.sum(
             lchoose2[..., 1:] * integral,
